@@ -33,6 +33,8 @@ to both _merge_names and _merge_executable; contents are merged between the two.
 D6 a copy reported by OTHER is merged as an add and its contents are created (`changed` forced).
 D7 (K5) the parent handed to tt.adjust_path is ROOT_PARENT or _parent_trans_id(winning_tree, winning_parent_path): resolved
 in the tree whose parent won.
+D8 methods of the merger that take a tree argument keep no table on the merger keyed by their other arguments alone
+(the same path can name different directories in THIS, BASE and OTHER).
 Does not decide: the laws over whole trees (tree values), text merging (C19), the entry generators _entries3/_entries_lca.
 """
 
@@ -140,8 +142,29 @@ def run(ctx):
     ctx.check("D7-parent-resolved-in-winning-tree", wn, ok, "the new parent is ROOT_PARENT or _parent_trans_id(winning_tree, winning_parent_path)", construct=str(srcs), message=f"the parent trans id handed to adjust_path comes from {srcs}: a value looked up without the winning tree (e.g. a cache keyed by the path alone) resolves the same path string in the wrong tree when THIS and OTHER use one name for different directories")
     ctx.sample({"winner_idx": table, "resolver_values": rv})
 
+    # ---- D8: lookups that depend on which tree is asked are not memoised by path alone ------------------------------
+    # THIS, BASE and OTHER can give the same path string to different directories (chained or swapped renames); a cache
+    # on the merger keyed only by the path hands the first tree's answer to the second one.
+    n_tree_fns = 0
+    for item in cls.body:
+        if not isinstance(item, ast.FunctionDef):
+            continue
+        params = [a.arg for a in item.args.args if a.arg not in ("self", "cls")]
+        tree_params = [p_ for p_ in params if p_ == "tree" or p_.endswith("_tree")]
+        if not tree_params or not any(isinstance(x, ast.Name) and x.id in tree_params for x in ast.walk(item)):
+            continue
+        n_tree_fns += 1
+        bad = []
+        for n in walk_own(item):
+            if isinstance(n, ast.Subscript) and isinstance(n.value, ast.Attribute) and norm(n.value.value) == "self":
+                names = {x.id for x in ast.walk(n.slice) if isinstance(x, ast.Name)}
+                if names and names <= set(params) and not (names & set(tree_params)):
+                    bad.append(f"L{n.lineno}:{norm(n)[:50]}")
+        ctx.check("D8-memo-key-names-the-tree", f"{MG}:{M}.{item.name}", not bad, f"{item.name} keeps no per-merger table keyed by its other arguments without the tree", construct="; ".join(bad), message=f"{M}.{item.name} answers from a table on the merger keyed without its tree argument ({bad}): when the same path names different directories in THIS and OTHER (chained or swapped directory renames) the second tree gets the first one's transform id, and a file added on one side lands in the wrong directory without any conflict")
+    ctx.require(n_tree_fns >= 3, f"{MG}:{M}: only {n_tree_fns} methods take a tree argument (hand-confirmed: >= 5)")
 
 MUTANTS = [
+    Mutant("parent transform ids cached by path only", MG, "        if parent_path is None:\n            return None\n        if tree.supports_file_ids:\n", "        if parent_path is None:\n            return None\n        if parent_path in self.__dict__.setdefault(\"_ptids\", {}):\n            return self._ptids[parent_path]\n        if tree.supports_file_ids:\n", expect="D8-memo-key-names-the-tree"),
     Mutant("copies get a name but no content", MG, "                    executable3 = (None, executable3[1], None)\n                    changed = True\n                    copied = False\n", "                    executable3 = (None, executable3[1], None)\n", expect="D6-copy-merged-as-add"),
     Mutant("parent lookups cached by path alone", MG, "                parent_trans_id = self._parent_trans_id(\n                    winning_tree, winning_parent_path\n                )\n            self.tt.adjust_path", "                parent_trans_id = self._cache.get(winning_parent_path) or self._parent_trans_id(\n                    winning_tree, winning_parent_path\n                )\n                parent_trans_id = self._cache.setdefault(winning_parent_path, parent_trans_id)\n            self.tt.adjust_path", expect="D7-parent-resolved-in-winning-tree"),
     Mutant("winner_idx swaps this and other", MG, '    winner_idx = {"this": 2, "other": 1, "conflict": 1}', '    winner_idx = {"this": 1, "other": 2, "conflict": 1}', expect="D1-positional-convention"),
